@@ -96,12 +96,22 @@ def spec_ongoing_entry(h, d, G):
     machine list and is therefore not carried around as an opaque atom over a few heap components)"""
     r = bv("rg")
     L = (G, "o")
+    D = Disp(h, d)
     return [("result-list", z3.And(G > 0, G < h.alloc, h.len(L) >= 0)),
-            ("elements-are-objects", forall([r], imp(rng(r, 0, h.len(L)), h.at(L, r) > 0), patterns=[h.at(L, r)]))]
+            ("elements-are-objects", forall([r], imp(rng(r, 0, h.len(L)), z3.And(
+                h.at(L, r) > 0, D.it.is_op(D.opx(h.at(L, r))))), patterns=[h.at(L, r)]))]
+
+
+def spec_uncompleted_entry(h, d, L):
+    """what the cache invariant carries about an uncompleted_operations entry: a list of operations of the instance
+    (its value -- unscheduled followed by ongoing -- is the post-condition of `Dispatcher.uncompleted_operations$raw`)"""
+    from .filters import ops_wf
+    return ops_wf(h, d, L, "result")
 
 
 SPECS = {
     "ongoing_operations": (SO_LIST_O, spec_ongoing_entry),
+    "uncompleted_operations": (OPS, spec_uncompleted_entry),
     "raw_ready_operations": (OPS, spec_raw_ready),
     "unscheduled_operations": (OPS, spec_unscheduled),
     "scheduled_operations": (OPS, spec_scheduled),
@@ -249,7 +259,7 @@ class _Cached(Contract):
     def modifies(self, c):
         fields = {f: [c["self"]] for f in cache_fields()}
         fields["$oidx"] = "ALL"
-        if self.key == "ongoing_operations":       # its body builds the list in the second region, with a ghost index
+        if self.key in ("ongoing_operations", "uncompleted_operations"):   # the list is built in the second region, with a ghost index
             fields["$$og_idx"] = [c["self"]]
             return Frame(fields=fields, alloc_lists=True, alloc_olists=True)
         return Frame(fields=fields, alloc_lists=True)
@@ -516,7 +526,8 @@ class UncompletedRaw(Contract):
         U = h.get("$cache_val:unscheduled_operations", d)
         G = (h.get("$cache_val:ongoing_operations", d), "o")
         r = bv("rq")
-        return [("result-is-a-new-list", z3.And(c.result >= c.h0.alloc, c.result < c.h.alloc)),
+        return [("result-is-a-new-list", z3.And(c.result >= c.h0.alloc, c.result < c.h.alloc))] \
+            + spec_uncompleted_entry(h, d, R) + [
                 # the value: the unscheduled operations followed by the operations of ongoing_operations(), where both
                 # lists are the ones the two queries answer with in this state (they are in the cache afterwards)
                 ("unscheduled-then-ongoing", z3.And(
